@@ -12,7 +12,7 @@ LEVEL = "proof"
 COQ_FILES = ["Tie/C14_tie.v", "Props/C14_props.v"]
 PROPS_FILES = ["C14_props.v"]
 TRUSTED_BASE = [
-    "py2gallina unit 'recon-loop': the body of the batch loop of MRIModelEngine.reconstruct_volumes is regenerated on every run as a statement list over its four state variables (guards on last_filename / curr_volume / slice_counter == volume_size, slice assignment into the volume buffer, the yield); statements that compute the per-batch output are abstracted to 'outs', anything else fails closed; coq/Proofs/C14_skel.v proves that this statement list refines the state machine below",
+    "py2gallina unit 'recon-loop': the body of the batch loop of MRIModelEngine.reconstruct_volumes is regenerated on every run as a statement list over its four state variables (guards on last_filename / curr_volume / slice_counter == volume_size, slice assignment into the volume buffer, the yield); if / elif / else kept as such; named integer intermediates computed from slice_counter / volume_size are substituted where used, as long as neither is assigned in between); statements that compute the per-batch output are abstracted to 'outs', anything else fails closed; coq/Tie/C14_tie.v proves that one iteration of this statement list is, for every state, file name and batch, the same state transformer as one iteration of the reference body, and coq/Proofs/C14_skel.v that the reference body refines the state machine below",
     "hand-written model coq/Model/C14.v of the bookkeeping of MRIModelEngine.reconstruct_volumes (last_filename / curr_volume / slice_counter / volume_size), tied by exact correspondence through the real Engine.predict -> reconstruct_volumes with a marker model (vlib/props/c14.py)",
     "torch DataLoader yields the batch sampler's batches in order for any worker count (validated for 0-2 workers); default collate",
     "_process_output acts per slice (validated: per-slice scaling factors 2^k, crop from C10)",
@@ -60,7 +60,56 @@ def _same_call(a, b):
     return isinstance(a, ast.Call) and isinstance(b, ast.Call) and flat(a) == flat(b)
 
 
-def _loop_stmt(s, path):
+class _Env:
+    """named intermediates of the loop body that read the loop state (`end = slice_counter + n`): kept as definitions and
+    substituted where they are used, as long as no state variable they read has been assigned in between"""
+
+    def __init__(self):
+        self.defs = {}  # name -> (expression, state variables it reads)
+
+    def subst(self, node):
+        import ast
+        import copy
+
+        defs = self.defs
+
+        class T(ast.NodeTransformer):
+            def visit_Name(self, n):
+                if isinstance(n.ctx, ast.Load) and n.id in defs:
+                    return copy.deepcopy(defs[n.id][0])
+                return n
+
+        return ast.fix_missing_locations(T().visit(copy.deepcopy(node)))
+
+    def assigned(self, names):
+        for k in [k for k, (_, deps) in self.defs.items() if deps & set(names) or k in names]:
+            del self.defs[k]
+
+
+def _assigned_state(s):
+    """state variables (and locals) assigned anywhere inside a statement"""
+    import ast
+
+    out = set()
+    for n in ast.walk(s):
+        if isinstance(n, (ast.Assign, ast.AugAssign, ast.AnnAssign)):
+            for t in (n.targets if isinstance(n, ast.Assign) else [n.target]):
+                for e in (t.elts if isinstance(t, (ast.Tuple, ast.List)) else [t]):
+                    while isinstance(e, (ast.Subscript, ast.Attribute, ast.Starred)):
+                        e = e.value
+                    if isinstance(e, ast.Name):
+                        out.add(e.id)
+    return out
+
+
+def _loop_stmts(stmts, path, env):
+    out = []
+    for st in stmts:
+        out.extend(_loop_stmt(st, path, env))
+    return out
+
+
+def _loop_stmt(s, path, env):
     import ast
 
     from ..core import Untranslatable
@@ -84,46 +133,68 @@ def _loop_stmt(s, path):
             fail("del outside subset")
         return []
     if isinstance(s, ast.AugAssign):
-        if u == "slice_counter += output_abs.shape[0]":
-            return ["SAddCounter"]
         if u == "filenames_seen += 1":
             return []
+        if ast.unparse(s.target) == "slice_counter" and isinstance(s.op, ast.Add) and ast.unparse(env.subst(s.value)) == "output_abs.shape[0]":
+            env.assigned(["slice_counter"])
+            return ["SAddCounter"]
         fail("augmented assignment outside subset")
     if isinstance(s, ast.Assign):
-        t = ast.unparse(s.targets[0])
-        v = ast.unparse(s.value)
+        if len(s.targets) != 1:
+            fail("chained assignment")
+        t = ast.unparse(env.subst(s.targets[0])) if not isinstance(s.targets[0], ast.Name) else s.targets[0].id
+        value = env.subst(s.value)
+        v = ast.unparse(value)
         if t in PURE_TARGETS or (isinstance(s.targets[0], ast.Name) and t not in STATE_VARS and t not in ("data", "data_loader", "loss_dict_list", "filenames_seen")):
-            # a local that is not part of the loop state (the batch output, a named intermediate): it must not read the state
-            for n in ast.walk(s.value):
-                if isinstance(n, ast.Name) and n.id in STATE_VARS:
+            reads = {n.id for n in ast.walk(value) if isinstance(n, ast.Name) and n.id in STATE_VARS}
+            env.assigned([t])
+            if reads:
+                # a named intermediate computed from the loop state: only integer arithmetic on the counters is kept
+                if t in PURE_TARGETS or not reads <= {"slice_counter", "volume_size"}:
                     fail("batch output depends on the loop state")
+                env.defs[t] = (value, reads)
             return []
         table = {("last_filename", "filename"): ["SSetLastFile"], ("curr_volume", "None"): ["SResetVolume"], ("curr_target", "None"): [], ("slice_counter", "0"): ["SResetCounter"],
+                 ("slice_counter", "slice_counter + output_abs.shape[0]"): ["SAddCounter"],
                  ("volume_size", "len(data_loader.batch_sampler.sampler.volume_indices[filename])"): ["SSetVsz"],
                  ("curr_volume", "torch.zeros(*(volume_size, *output_abs.shape[1:]), dtype=output_abs.dtype)"): ["SAllocBuf"],
                  ("curr_target", "curr_volume.clone()"): [],
                  ("curr_volume[slice_counter:slice_counter + output_abs.shape[0], ...]", "output_abs.cpu()"): ["SWriteSlice"],
                  ("curr_target[slice_counter:slice_counter + output_abs.shape[0], ...]", "target_abs.cpu()"): []}
+        res = None
         if (t, v) in table:
-            return table[(t, v)]
-        if t == "curr_volume" and _same_call(s.value, ast.parse("torch.zeros(*(volume_size, *output_abs.shape[1:]), dtype=output_abs.dtype)", mode="eval").body):
-            return ["SAllocBuf"]
-        fail("assignment outside subset")
+            res = table[(t, v)]
+        elif t == "curr_volume" and _same_call(value, ast.parse("torch.zeros(*(volume_size, *output_abs.shape[1:]), dtype=output_abs.dtype)", mode="eval").body):
+            res = ["SAllocBuf"]
+        if res is None:
+            fail("assignment outside subset")
+        if isinstance(s.targets[0], ast.Name):
+            env.assigned([t])
+        return res
     if isinstance(s, ast.If) and ast.unparse(s.test) == "add_target" and len(s.body) == 1 and len(s.orelse) == 1 and all(isinstance(b, ast.Expr) and isinstance(b.value, ast.Yield) for b in (s.body[0], s.orelse[0])):
         if _yields_volume(s.body[0].value.value) and _yields_volume(s.orelse[0].value.value) and len(s.body[0].value.value.elts) == 4 and len(s.orelse[0].value.value.elts) == 3:
             return ["SYield"]
         fail("yield of something else than the current volume and file name")
-    if isinstance(s, ast.If) and not s.orelse:
-        c = ast.unparse(s.test)
-        conds = {"last_filename is None": "CLastIsNone", "last_filename != filename": "CLastNeqFile", "curr_volume is None": "CBufIsNone", "slice_counter == volume_size": "CCounterEqVsz"}
-        body = [x for st in s.body for x in _loop_stmt(st, path)]
+    if isinstance(s, ast.If):
+        c = ast.unparse(env.subst(s.test))
+        conds = {"last_filename is None": "CLastIsNone", "last_filename != filename": "CLastNeqFile", "curr_volume is None": "CBufIsNone", "slice_counter == volume_size": "CCounterEqVsz",
+                 "volume_size == slice_counter": "CCounterEqVsz", "filename != last_filename": "CLastNeqFile"}
+        import copy
+
+        env_b, env_o = copy.deepcopy(env), copy.deepcopy(env)
+        body = _loop_stmts(s.body, path, env_b)
+        orelse = _loop_stmts(s.orelse, path, env_o)
+        # definitions made inside a branch do not outlive it; assignments inside it invalidate what they touch
+        env.assigned(_assigned_state(s))
         if c == "add_target":
-            if body:
+            if body or orelse:
                 fail("the target branch changes the loop state")
             return []
         if c not in conds:
             fail("guard outside subset")
-        return ["SIf %s [%s]" % (conds[c], "; ".join(body))]
+        if not s.orelse:
+            return ["SIf %s [%s]" % (conds[c], "; ".join(body))]
+        return ["SIfElse %s [%s] [%s]" % (conds[c], "; ".join(body), "; ".join(orelse))]
     fail("statement outside subset")
 
 
@@ -145,7 +216,7 @@ def generate(ctx):
     for k, v in (("last_filename", "None"), ("curr_volume", "None"), ("slice_counter", "0")):
         if pre.get(k) != v:
             raise Untranslatable("recon-loop: initial value of %s is not %s" % (k, v), fn.lineno, path)
-    stmts = [x for st in loops[0].body for x in _loop_stmt(st, path)]
+    stmts = _loop_stmts(loops[0].body, path, _Env())
     out = "From DV Require Import Model.C14_skel.\nDefinition gen_body : list sstmt :=\n  [%s].\n" % ";\n   ".join(stmts)
     return [pg.write_gen(ctx, "C14_gen", out)]
 
